@@ -28,7 +28,7 @@ fn gen_sheet(r: &mut R) -> Vec<SRule> {
                 .map(|_| {
                     let (p, v) = match r.b(8) {
                         0..=2 => ("color", format!("#{:02x}{:02x}{:02x}", r.b(256), r.b(256), 0xa0 + r.b(16))),
-                        3 => ("color", r.pick(&["red", "blue", "lime", "teal"]).to_string()),
+                        3 => ("color", r.pick(&gen::COLOUR_NAMES[..17]).to_string()),
                         4 => ("background-color", format!("#{:x}{:x}{:x}", r.b(16), 10 + r.b(6), r.b(16))),
                         5 => ("display", r.pick(&["none", "block"]).to_string()),
                         6 => ("white-space", r.pick(&["pre", "normal", "pre-wrap"]).to_string()),
@@ -158,6 +158,9 @@ impl Prop for C17 {
                     String::from_utf8_lossy(&gen::mutate(r, t.as_bytes())).to_string()
                 }
             };
+            // inputs that end inside a token: an escape, a string, a comment, a function (added after a mutation of the
+            // string scanner's "backslash at the end" case survived)
+            let s = if r.p(12) { format!("{s}{}", r.pick(&["\"a\\", "'\\", "\"a\\\n", "p{content:\"x\\", "\\", "/*", "/* *", "url(", "p{color:rgb(", "\"", "'a", "@x \"\\", "p{color:red;content:'\\", ";color:#00ff00;content:'\\", ";color:#00ff00;x:\"\\", "color:#0000ff;quotes:'a\\"])) } else { s };
             let mut cfg = Cfg::rich();
             let html;
             let stream;
@@ -192,6 +195,17 @@ impl Prop for C17 {
                 }
                 _ => {
                     cfg.use_doc_css = true;
+                    // a style attribute holds declarations, not rule sets: in four cases of ten a generated declaration
+                    // list, possibly ending inside a string or an escape
+                    let s = if r.p(40) {
+                        let mut d: Vec<String> = (0..1 + r.b(3)).map(|_| gen::decl(r)).collect();
+                        if r.p(40) {
+                            d.push(r.pick(&["content:'\\", "x:\"\\", "quotes:'a\\", "x:'a", "x:url(", "x:/*", "color:rgb(1,2", "\\"]).to_string());
+                        }
+                        d.join(";")
+                    } else {
+                        s
+                    };
                     let safe = s.replace('"', "'").replace('<', " ").replace('&', " ");
                     html = format!("<div class=a><p id=i1 style=\"{safe}\">qb <em>qc</em></p><ul><li>qd<li class=b>qf</ul></div>");
                     stream = "style-attribute";
